@@ -243,9 +243,20 @@ def check(tier):
             nv += 1
             if nv > 20:
                 continue
-            c = [x[0] for b in batches for x in b if x[0].cid == cid][0]
-            q = [x[1] for b in batches for x in b if x[0].cid == cid][0]
-            rep.violation("%s: %s" % (c.desc, msg), {"kind": "seminaive", "program": FUNCTOR + print_program(q), "facts": edb_text(db), "why": msg})
+            c, q, info, comps = [x for b in batches for x in b if x[0].cid == cid][0]
+            want = {}
+            try:
+                trace, _ = naive_stages(c.prog, db)
+                for comp in comps:
+                    m = max([len(trace.get(n, [])) for n in comp] + [0])
+                    if m:
+                        for rel in comp:
+                            want[rel] = [len(trace[rel][k]) if k < len(trace[rel]) else 0 for k in range(1, m)] + [0]
+            except Undefined:
+                pass
+            rep.violation("%s: %s" % (c.desc, msg), {"kind": "seminaive", "program": FUNCTOR + print_program(q), "facts": edb_text(db), "why": msg,
+                                                      "expected_new_tuples_per_iteration": want,
+                                                      "unique_rule_ids": [rid for rid, (idx, vs) in info.items() if "<anon>" not in vs]})
         if dl.expired():
             rep.capped("deadline")
             break
@@ -262,4 +273,39 @@ def check(tier):
 
 
 def replay(obj):
-    return True, "re-run the stored program with -L<verif>/build/functors -lfunctors -p <profile> and SOUFFLE_VERIF_LOG=<file>; " + obj.get("why", "")
+    """re-run the stored single program with the observation functor and a profile; violated iff an iteration count differs from the
+    stored naive stages or a combination of a rule observed for uniqueness is logged twice"""
+    wd = fresh_dir(PID + "-replay")
+    fdir = build_functors()
+    os.makedirs(os.path.join(wd, "f"))
+    os.makedirs(os.path.join(wd, "o"))
+    for r, lines in obj.get("facts", {}).items():
+        with open(os.path.join(wd, "f", r + ".facts"), "w") as f:
+            f.write("".join(l + "\n" for l in lines))
+    with open(os.path.join(wd, "p.dl"), "w") as f:
+        f.write(obj["program"])
+    env = dict(os.environ)
+    log, prof = os.path.join(wd, "mark.log"), os.path.join(wd, "prof.json")
+    env["SOUFFLE_VERIF_LOG"] = log
+    env["LD_LIBRARY_PATH"] = fdir + ":" + env.get("LD_LIBRARY_PATH", "")
+    rc, so, se = sh([SOUFFLE, "--no-preprocessor", "-w", "-j", "1", "-L" + fdir, "-lfunctors", "-p", prof, "-F", os.path.join(wd, "f"), "-D", os.path.join(wd, "o"),
+                     os.path.join(wd, "p.dl")], timeout=300, env=env)
+    if rc != 0:
+        return True, "rc=%s %s" % (rc, se[-300:])
+    pj = json.load(open(prof))["root"]["program"]["relation"]
+    out = []
+    for rel, want in obj.get("expected_new_tuples_per_iteration", {}).items():
+        it = pj.get(rel, {}).get("iteration")
+        if it is not None:
+            got = [it[k]["num-tuples"] for k in sorted(it, key=int)]
+            if got != want:
+                out.append("relation %s: new tuples per iteration %s, naive stages %s" % (rel, got, want))
+    seen = set()
+    uniq = set(obj.get("unique_rule_ids", []))
+    if os.path.exists(log):
+        for line in open(log):
+            p_ = tuple(int(x) for x in line.split())
+            if p_[0] in uniq and p_ in seen:
+                out.append("combination %s logged twice" % (p_,))
+            seen.add(p_)
+    return bool(out), "; ".join(out[:5]) or "iteration counts and observation log agree with the naive stages"
